@@ -373,7 +373,7 @@ pub fn check_one(model: &ZoneModel, tl: &Timeline, zr: TimeZoneRef<'_>, f: &Fiel
                     let ca = cal::civil_from_unix(*at as i128 + model.ltt(*after).off as i128);
                     let fb = (before_transition.year() as i64, before_transition.month() as i64, before_transition.month_day() as i64, before_transition.hour() as i64, before_transition.minute() as i64, before_transition.second() as i64);
                     let fa = (after_transition.year() as i64, after_transition.month() as i64, after_transition.month_day() as i64, after_transition.hour() as i64, after_transition.minute() as i64, after_transition.second() as i64);
-                    if !ok || fb != (cb.y, cb.mo, cb.d, cb.h, cb.mi, cb.s) || fa != (ca.y, ca.mo, ca.d, ca.h, ca.mi, ca.s) || before_transition.nanoseconds() != f.ns || after_transition.nanoseconds() != f.ns {
+                    if !ok || fb != (cb.y, cb.mo, cb.d, cb.h, cb.mi, cb.s) || fa != (ca.y, ca.mo, ca.d, ca.h, ca.mi, ca.s) {
                         return Err(format!("{}: gap entry {g:?} does not describe the jump {e:?}", desc()));
                     }
                 }
@@ -396,6 +396,17 @@ pub fn check_one(model: &ZoneModel, tl: &Timeline, zr: TimeZoneRef<'_>, f: &Fiel
             if inst.iter().any(|&i| i < e.7 || i > la.7) {
                 return Err(format!("{}: earliest/latest do not bound every entry", desc()));
             }
+        }
+        // the same three accessors on the buffer-based list (buffer one longer than the result, pre-filled with the previous search's entries)
+        {
+            let k = list.len();
+            let mut buf: Vec<Option<FoundDateTimeKind>> = (0..k + 1).map(|i| if stale.is_empty() { None } else { stale[i % stale.len()] }).collect();
+            let r = DateTime::find_n(&mut buf, f.y, f.mo, f.d, f.h, f.mi, f.s, f.ns, zr).map_err(|e| format!("{}: find succeeded, find_n failed: {e:?}", desc()))?;
+            let fo = |d: Option<DateTime>| d.map(|d| fields_of(&d));
+            if fo(r.earliest()) != first || fo(r.latest()) != last || r.unique().is_some() != matches!(list.as_slice(), [FoundDateTimeKind::Normal(_)]) {
+                return Err(format!("{}: earliest/latest/unique of the buffer-based list ({:?}/{:?}/{:?}) are not the first / last / single entry of [{}]", desc(), fo(r.earliest()).map(|x| x.7), fo(r.latest()).map(|x| x.7), r.unique().map(|d| d.unix_time()), show(&list)));
+            }
+            *stale = list.iter().map(|k| Some(*k)).collect();
         }
         let uniq = found.unique();
         let should = matches!(list.as_slice(), [FoundDateTimeKind::Normal(_)]);
